@@ -90,6 +90,38 @@ func wireString(rt *rapid.T, tn string) (w []byte, feat *Features, stale, mutate
 	v, ft := GenValue(rt, tn, o)
 	r, spans := computedSpans(v)
 	w = append([]byte{}, r.Bytes...)
+	if len(spans) > 0 && rapid.IntRange(0, 4).Draw(rt, "nearlen") == 0 {
+		// the length field is off by a little, optionally with that many extra bytes really present behind the body
+		// (a frame from a newer interface version; a sender that counts differently)
+		le := Types[tn].LE
+		for _, sp := range spans {
+			if sp.Kind != "len" {
+				continue
+			}
+			cur := getUint(w[sp.Off:], sp.Len, le)
+			k := uint64(rapid.IntRange(1, 24).Draw(rt, "lendelta"))
+			switch rapid.IntRange(0, 2).Draw(rt, "lenhow") {
+			case 0:
+				copy(w[sp.Off:], putUint(nil, cur+k, sp.Len, le))
+			case 1:
+				if cur >= k {
+					copy(w[sp.Off:], putUint(nil, cur-k, sp.Len, le))
+				}
+			default:
+				copy(w[sp.Off:], putUint(nil, cur+k, sp.Len, le))
+				at := len(w)
+				for _, o := range spans {
+					if o.Kind == "checksum" {
+						at = o.Off
+					}
+				}
+				extra := rapid.SliceOfN(rapid.Byte(), int(k), int(k)).Draw(rt, "extra")
+				w = append(w[:at:at], append(extra, w[at:]...)...)
+			}
+			stale = true
+		}
+		return w, ft, stale, false
+	}
 	if len(spans) > 0 && rapid.Bool().Draw(rt, "stale") {
 		for _, sp := range spans {
 			b := rapid.SliceOfN(rapid.Byte(), sp.Len, sp.Len).Draw(rt, "stalebytes")
@@ -549,10 +581,11 @@ func rpC15(types []string) (out []RProp) {
 // ---------------------------------------------------------------- C16
 
 type CaseC16 struct {
-	Type  string  `json:"type"`
-	V     *Value  `json:"v"`
-	Other *Value  `json:"other"`
-	Pre   []PreOp `json:"pre,omitempty"` // prior calls: often a decode of a RELATED message (same type with one number stepped, or another type of the protocol carrying the same values in its like-named fields)
+	Type  string   `json:"type"`
+	V     *Value   `json:"v"`
+	Other *Value   `json:"other"`
+	W     HexBytes `json:"w,omitempty"`   // if set: the decode side is given these bytes (a wire string the encoder would not produce: raw fields, stale or slightly wrong lengths, extra bytes) instead of V's encoding
+	Pre   []PreOp  `json:"pre,omitempty"` // prior calls: often a decode of a RELATED message (same type with one number stepped, or another type of the protocol carrying the same values in its like-named fields)
 }
 
 // scramble changes a library object in place: every number, every list element,
@@ -617,6 +650,9 @@ func oracleC16(c *CaseC16) *Failure {
 		return failf(sig+"/encode-side-retained", "after the first output buffer was overwritten and reused, encoding an equal message gives different bytes (first difference at byte %d): the library kept a reference into the caller's buffer", firstDiff(again, written))
 	}
 	enc := written
+	if len(c.W) > 0 {
+		enc = c.W
+	}
 	other, _, _, _ := LibEncode(c.Other)
 	// decode side: the harness owns the backing array
 	backing := make([]byte, len(enc), len(enc)+len(other)+64)
@@ -631,6 +667,7 @@ func oracleC16(c *CaseC16) *Failure {
 		return nil
 	}
 	snap = snap.Clone()
+	fpBefore := DeepFingerprint(obj)
 	full := backing[:cap(backing)]
 	for i := range full {
 		full[i] = 0xA5 ^ byte(i)
@@ -647,6 +684,10 @@ func oracleC16(c *CaseC16) *Failure {
 	}
 	if d := Diff(snap, after); d != "" {
 		return failf(sig+"/decode-side", "decoded message changed when its source buffer was overwritten and reused: %s", d)
+	}
+	// every field reachable from the message object, also ones the pinned schema does not know (added later)
+	if fpAfter := DeepFingerprint(obj); fpAfter != fpBefore {
+		return failf(sig+"/decode-side-unlisted-field", "some field of the decoded %s object (outside the wire fields of the pinned schema) changed when the source buffer was overwritten and reused: the object holds a view of the buffer", c.Type)
 	}
 	return nil
 }
@@ -694,6 +735,12 @@ func rpC16(types []string) (out []RProp) {
 			}
 			nt := ft.TextOrList > 0
 			cls := []string{}
+			if rapid.IntRange(0, 3).Draw(rt, "wire") == 0 {
+				// the decode side gets a wire string the encoder would not produce (raw field bytes, stale or slightly wrong
+				// computed fields, extra bytes behind the body); whatever the decoder accepts must not alias the buffer
+				c.W, _, _, _ = wireString(rt, tn)
+				cls = append(cls, "decode-side-given-a-wire-level-string")
+			}
 			if nt {
 				cls = append(cls, "has-text-or-list")
 			} else {
